@@ -15,8 +15,10 @@ import (
 	"net/http"
 	"net/url"
 	"os"
+	"runtime"
 	"strings"
 	"sync"
+	"sync/atomic"
 	"syscall"
 	"time"
 
@@ -221,6 +223,7 @@ func main() {
 	}
 	txnPanics(run)
 	writePanics(run)
+	concurrentPanics(run)
 	run.SetExtra("fault_enumeration", fmt.Sprintf("%d panic values x %d progress states x %d handler kinds, with every credential header in 5 capitalisations for the string and error values: enumerated completely (%d executions)", len(values), len(progress), len(kinds), n))
 }
 
@@ -504,4 +507,79 @@ func txnPanics(run *kit.Run) {
 			}
 		}
 	}
+}
+
+// concurrentPanics: containment is per request. Many goroutines panic at the same time, each with its own value, path,
+// parameters, ordinary header and credential; every request gets exactly one 500 of its own and exactly one diagnostic
+// record that names its own route, parameters, request line and ordinary header, and no credential of anybody.
+func concurrentPanics(run *kit.Run) {
+	cap := &capture{}
+	f := build(cap)
+	workers := 4 * runtime.GOMAXPROCS(0)
+	per := run.Pick(100, 2000)
+	var wg sync.WaitGroup
+	var bad atomic.Pointer[string]
+	note := func(format string, a ...any) {
+		m := fmt.Sprintf(format, a...)
+		bad.CompareAndSwap(nil, &m)
+	}
+	for g := 0; g < workers; g++ {
+		wg.Add(1)
+		go func(g int) {
+			defer wg.Done()
+			for i := 0; i < per; i++ {
+				id := g*per + i
+				v := pv{name: "string", make: func() any { return fmt.Sprintf("boom-%d-", id) }}
+				pl := &plan{value: v, progress: "nothing"}
+				req := &http.Request{Method: "GET", URL: &url.URL{Path: fmt.Sprintf("/p/id%d/x/rest%d", id, id), RawQuery: "q=1"},
+					Header: http.Header{"Authorization": {fmt.Sprintf("secret-%d-", id)}, "X-Plain": {fmt.Sprintf("plain-%d-", id)}}, Proto: "HTTP/1.1", ProtoMajor: 1, ProtoMinor: 1, RemoteAddr: "192.0.2.1:1"}
+				req = req.WithContext(context.WithValue(context.Background(), planKey{}, pl))
+				u := &under{h: http.Header{}}
+				func() {
+					defer func() {
+						if p := recover(); p != nil {
+							note("request %d: a panic escaped ServeHTTP under concurrency: %v", id, p)
+						}
+					}()
+					f.ServeHTTP(u, req)
+				}()
+				if got := strings.Join(u.log, "; "); !strings.HasPrefix(got, "header 500") || strings.Count(got, "header") != 1 {
+					note("request %d: the client must get a single 500, the underlying writer saw %q", id, got)
+				}
+			}
+		}(g)
+	}
+	wg.Wait()
+	total := workers * per
+	seen := make(map[int]int, total)
+	for _, rec := range cap.recs {
+		k := strings.Index(rec, "boom-")
+		if k < 0 {
+			note("a diagnostic record names no panic value: %s", head(rec))
+			continue
+		}
+		var id int
+		fmt.Sscanf(rec[k:], "boom-%d-", &id)
+		seen[id]++
+		if strings.Contains(rec, "secret-") {
+			note("the record of request %d contains a credential value: %s", id, head(rec))
+		}
+		for _, want := range []string{fmt.Sprintf("GET /p/id%d/x/rest%d?q=1 HTTP/1.1", id, id), fmt.Sprintf("plain-%d-", id), "route=/p/{id}/x/*{rest}", fmt.Sprintf("id%d", id), fmt.Sprintf("rest%d", id)} {
+			if !strings.Contains(rec, want) {
+				note("the record of request %d (with %d requests in flight) lacks %q - it describes another request: %s", id, workers, want, head(rec))
+			}
+		}
+	}
+	for id := 0; id < total; id++ {
+		if seen[id] != 1 {
+			note("request %d produced %d diagnostic records", id, seen[id])
+			break
+		}
+	}
+	if m := bad.Load(); m != nil {
+		run.Violate("concurrent-panics", *m, nil)
+	}
+	run.Case("concurrent-panics", true)
+	run.Eval(int64(total))
+	run.Count("concurrent_panicking_requests", int64(total))
 }
